@@ -10,7 +10,7 @@ import (
 )
 
 func TestVerifReplayIntRoundTrip(t *testing.T) {
-	for _, v := range []int64{0, 1, 255, 256, 257, 2048, 65535, 65536, -1, -256, 1 << 31 - 1, -(1 << 31), 1 << 31, 1 << 40} {
+	for _, v := range []int64{0, 1, 255, 256, 257, 2048, 65535, 65536, -1, -256, 1<<31 - 1, -(1 << 31), 1 << 31, 1 << 40} {
 		var buf bytes.Buffer
 		if err := NewEncoder(&buf, nil).Encode(starlark.MakeInt64(v)); err != nil {
 			t.Fatalf("encode %d: %v", v, err)
